@@ -26,7 +26,7 @@ func init() {
 			"D3 single deployer: every tryDeploy/tryTransfer flag is computed as 'local committee index == 0' (or '== loop index' for the per-member Alphabet contracts), every deploying/funding submission is dominated by the true side of its flag, the committee is sorted before the local index is computed, the NNS stage dominates the Notary stage and every contract synchronisation. " +
 			"D4 restartability: package deploy imports nothing that can persist process-external progress (decisions can only come from the chain). D5 codec layout: encoder and decoder of the shared transaction data agree on (field, offset, width, byte order) and on the total length; both checksum helpers hash the same bytes and use the same prefix length. " +
 			"D6 names: the domain names used by the deployment equal rpc/nns names and the names the contracts resolve; the TLD constant is equal in common, rpc/nns and deploy. D7 cache invalidation: a closure that invalidates the shared transaction (stores nil into it) also clears every captured collection whose entries were validated against that transaction. D8 Transaction.Nonce/ValidUntilBlock depend on a chain height only through h/c or h − h%c (SSA taint). D9 stated constant: the typed constant a call is made with agrees with the one its error wrap names (positive control embedded). D10 a local that starts at a negative sentinel and is branched on is assigned somewhere (frozen-sentinel, positive control embedded). " +
-			"D11 nil-error-use: on the side where an error was just found nil it is not wrapped, logged, asked for its text or returned (positive control embedded). D12 sentinel-test: the first rejecting ordering test of a 'position of the match or -1' local keeps every position >= 0 on one side (member 0, signer 0 are not thrown out with the sentinel; positive control embedded). D13 index-on-equal: a search loop with an Equal test hands out its index on the equal side. D14 pending-guard: at every test of the monitor's in-flight query (found as the func() bool method answering with the Load of an atomic.Bool field of its receiver) no submission is reachable only through the 'still pending' side. D15 shared-match: the bool predicate over (shared transaction data, transaction) answers true only where every field of the shared data compared equal. D16 signature-verified: a byte string stored into a map and handed to a Verify* method, or produced by an (ok, rest) splitter, is stored only on the side where the verification / ok answered true. D17 collection-tolerant: in the signature-collection loop the failure side of a per-member error test always goes on with the next member. D18 divide-indices: a share-out helper calling f(index, amount) from two counting loops passes adjacent index ranges. D19 fixed-width-result: a function returning interop.Hash160/Hash256/PublicKey does not return convert.ToBytes(…) as it is. R9: the gates of the committee methods of NNS the procedure calls (Update, RegisterTLD; gate rule shared with C03) are decided here as well. R10: and the gate of netmap.SubscribeForNewEpoch, which Balance and Container call at deployment. D20 nil-side-use: a pointer, map, function or interface just found nil is not dereferenced, called or written through on that side (SSA, positive control built on every run). D21 submission-tracked: in a function with an in-flight monitor, validUntilBlock and every transaction id a submission answers with are handed to one tracker call. D22 package-state: no package-level variable of deploy is written, written through or handed out by address in a function body (sentinel errors are only loaded). D23 found-flag: the boolean that chooses between two submissions and is set true inside the innermost succeeded lookup is not left false anywhere inside it.",
+			"D11 nil-error-use: on the side where an error was just found nil it is not wrapped, logged, asked for its text or returned (positive control embedded). D12 sentinel-test: the first rejecting ordering test of a 'position of the match or -1' local keeps every position >= 0 on one side (member 0, signer 0 are not thrown out with the sentinel; positive control embedded). D13 index-on-equal: a search loop with an Equal test hands out its index on the equal side. D14 pending-guard: at every test of the monitor's in-flight query (found as the func() bool method answering with the Load of an atomic.Bool field of its receiver) no submission is reachable only through the 'still pending' side. D15 shared-match: the bool predicate over (shared transaction data, transaction) answers true only where every field of the shared data compared equal. D16 signature-verified: a byte string stored into a map and handed to a Verify* method, or produced by an (ok, rest) splitter, is stored only on the side where the verification / ok answered true. D17 collection-tolerant: in the signature-collection loop the failure side of a per-member error test always goes on with the next member. D18 divide-indices: a share-out helper calling f(index, amount) from two counting loops passes adjacent index ranges. D19 fixed-width-result: a function returning interop.Hash160/Hash256/PublicKey does not return convert.ToBytes(…) as it is. R9: the gates of the committee methods of NNS the procedure calls (Update, RegisterTLD; gate rule shared with C03) are decided here as well. R10: and the gate of netmap.SubscribeForNewEpoch, which Balance and Container call at deployment. D20 nil-side-use: a pointer, map, function or interface just found nil is not dereferenced, called or written through on that side (SSA, positive control built on every run). D21 submission-tracked: in a function with an in-flight monitor, validUntilBlock and every transaction id a submission answers with are handed to one tracker call. D22 package-state: no package-level variable of deploy is written, written through or handed out by address in a function body (sentinel errors are only loaded). D23 found-flag: the boolean that chooses between two submissions and is set true inside the innermost succeeded lookup is not left false anywhere inside it. D24 pending-released: every path of the goroutine the tracker starts releases the in-flight flag.",
 		NotCovered: "termination and convergence under all schedules and crash points, the n-member end-to-end run, divideFundsEvenly and the nonce/validity-window helper as functions of run-time integers: these need execution or model checking and are declared not applicable to this family (the property's suggested verif hook is therefore not used). Observed, not armed: distributeNEOToAlphabetContracts submits without an isPending guard; the leader tick guards the designation send with registerDomainTxMonitor and never resets triedDesignateRoleTx.",
 		Run:        runC13,
 	})
@@ -440,6 +440,7 @@ func runC13(cx *CheckCtx) {
 	checkSubmissionTracked(cx, sp)
 	checkPackageState(cx, sp)
 	checkFoundFlag(cx, sp)
+	checkPendingReleased(cx, sp)
 	// D12 the 'not found' test of a position-or-sentinel local keeps position 0 with the other positions
 	nST, fst := ruleSentinelTest(p)
 	cx.count("sentinel_tests", nST)
